@@ -38,6 +38,9 @@ def scenarios(wd):
                      "scan 0 1 mem - - -", "sdestroy 0", "rdestroy 0", "loadstream 1 %s/g.yarc" % wd, "scanner 1 1", "scan 1 1 mem - - -", "sdestroy 1", "rdestroy 1"]
     S["blocks"] = ["compiler 0", "add 0 - " + yv.hx(b'import "hash"\nrule b { strings: $a = "MK1;" condition: #a == 2 and uint16(6) == 0x4b4d and hash.sha1(2, 8) != "" and for all i in (1..#a) : ( @a[i] >= 0 ) }'),
                    "getrules 0 0", "cdestroy 0", "scanner 0 0", "data 1 " + yv.hx(b"..MK1;MK1;......"), "scan 0 1 blocks 6,4,6 1 -", "scan 0 1 blocks 16 - 1:a", "sdestroy 0", "rdestroy 0"]
+    S["abandon"] = ["compiler 0", "add 0 - " + yv.hx(b'rule b { strings: $a = "MK1;" $r = /M[A-Z]1;+/ condition: #a == 2 and #r > 0 }'),
+                    "getrules 0 0", "cdestroy 0", "scanner 0 0", "data 1 " + yv.hx(b"..MK1;MK1;......"),
+                    "scan 0 1 blocks 6,4,6 1 - 1", "scan 0 1 mem - - -", "scan 0 1 blocks 6,4,6 2 - 1", "scan 0 1 blocks 16 - -", "scan 0 1 blocks 6,4,6 1,2 -", "sdestroy 0", "rdestroy 0"]
     S["regex_heavy"] = ["compiler 0", "add 0 - " + yv.hx(b'rule r { strings: $a = /(abc|abd|aef)[a-z]{2,5}(x|yz)+q/ $b = /[0-9a-f]{4,8}-[0-9]{2}/ wide $c = /\\bfoo\\w+bar\\b/i condition: 2 of them or ext matches /a.*b/ }'),
                         "getrules 0 0", "cdestroy 0", "scanner 0 0", "data 1 " + yv.hx(b"abcdexyzq deadbeef-12 fooXXbar " + b"".join(bytes([c, 0]) for c in b"cafe01-77")),
                         "scan 0 1 mem - - -", "sdestroy 0", "rdestroy 0"]
@@ -151,7 +154,7 @@ def c16(res, tier, seed):
     kf = {k["id"]: k for k in yv.known_findings("C16")}
     total_runs = 0
     jobs = []
-    CAP = 3000          # thorough: every k when the scenario has at most CAP allocations, else CAP sampled ones + both ends
+    CAP = 8000          # thorough: every k when the scenario has at most CAP allocations, else CAP sampled ones + both ends
     exhaustive = {}
     for name, body0 in S.items():
         warm = iteration(body0, 0, 0, "warmup")[:-1]      # one-time initialisations (OpenSSL, module tables) happen before the baseline is taken
@@ -168,8 +171,8 @@ def c16(res, tier, seed):
         N = [e for e in body_only.events if e["e"] == "Allocs"][0]["count"]
         res.cov["parts"]["allocs_" + name] = N
         ks = list(range(1, N + 1))
-        if tier == "quick" and N > 150:
-            ks = sorted(set(r.sample(ks, 130) + list(range(1, 12)) + list(range(N - 8, N + 1))))
+        if tier == "quick" and N > 800:
+            ks = sorted(set(r.sample(ks, 400) + list(range(1, 12)) + list(range(N - 8, N + 1))))
         elif tier != "quick" and N > CAP:
             ks = sorted(set(r.sample(ks, CAP) + list(range(1, 200)) + list(range(N - 200, N + 1))))
         exhaustive[name] = len(ks) == N
@@ -229,8 +232,8 @@ def c16(res, tier, seed):
     res.level = "fault_enumeration"
     res.cov["exhaustive"] = tier != "quick" and all(exhaustive.values())
     res.cov["rule"] = ("9 scenarios (strings of every kind incl. chains; 7 modules on a PE; externals at 3 levels; nested includes / namespaces / tags / metas; save+load via file "
-                       "and stream; block iterator with not-ready, abort, hashing; heavy regexes + matches; 40 rules). For each: every k in 1..N (N = allocations of the scenario; "
-                       "quick: 130 sampled + first 11 + last 9; thorough: every k up to %d allocations, else %d sampled + 200 at both ends), single and sticky failure; each operation "
+                       "and stream; block iterator with not-ready, abort, hashing; suspended scans abandoned and followed by new scans; heavy regexes + matches; 40 rules). For each: every k in 1..N (N = allocations of the scenario; "
+                       "quick: every k up to 800 allocations, else 400 sampled + first 11 + last 9, alternating single / sticky; thorough: every k up to %d allocations, else %d sampled + 200 at both ends), single and sticky failure; each operation "
                        "judged by ApiLifecycle!OpOK, each run by RunOK; distinct = (scenario, k, mode)" % (CAP, CAP))
     res.assumptions += ["allocations made by libyara through malloc/calloc/realloc/strdup/strndup are failed (incl. the flex scanners'); OpenSSL's internal allocations are not",
                         "the heap baseline is ASan's current_allocated_bytes after destroying every object; a growth is attributed to the allocation site of the injected failure"]
